@@ -361,3 +361,180 @@ Proof.
   intros H. destruct (doc_ok_parts o d H) as [_ H2].
   eapply enclosing_is_chain; [exact H2|apply forest_of_wf].
 Qed.
+
+(* ================================================================== the attributes of the matched element *)
+(* the open tags of a document with their offsets: where each one starts, how it is written *)
+Record tagrec := mkTagRec { tr_start : N; tr_name : str; tr_attrs : list dattr; tr_ws : str; tr_sc : bool }.
+Definition tr_text (t : tagrec) : str := open_tag (tr_name t) (tr_attrs t) (tr_ws t) (tr_sc t).
+Definition tr_end (t : tagrec) : N := (tr_start t + N.of_nat (length (tr_text t)))%N.
+
+Fixpoint tags_item (p : N) (i : item) : list tagrec :=
+  match i with
+  | IPaired n l w kids =>
+      mkTagRec p n l w false ::
+      (fix go (p : N) (ks : list item) : list tagrec :=
+         match ks with
+         | [] => []
+         | k :: r => tags_item p k ++ go (p + N.of_nat (length (render_item k)))%N r
+         end) (p + N.of_nat (length (open_tag n l w false)))%N kids
+  | ISelf n l w => [mkTagRec p n l w true]
+  | IVoid n l w => [mkTagRec p n l w false]
+  | IRaw n l w _ => [mkTagRec p n l w false]
+  | _ => []
+  end.
+Fixpoint tags_items (p : N) (d : list item) : list tagrec :=
+  match d with
+  | [] => []
+  | k :: r => tags_item p k ++ tags_items (p + N.of_nat (length (render_item k)))%N r
+  end.
+Definition tags_of (d : list item) : list tagrec := tags_items 0 d.
+
+Lemma tags_item_paired p n l w kids :
+  tags_item p (IPaired n l w kids) =
+  mkTagRec p n l w false :: tags_items (p + N.of_nat (length (open_tag n l w false)))%N kids.
+Proof. reflexivity. Qed.
+
+(* every element of the record is one of those tags *)
+Definition node_of_tag (n : node) (t : tagrec) : Prop :=
+  b_open (entry n) = (tr_start t, tr_end t) /\ b_name (entry n) = tr_name t.
+
+Definition nt_item_stmt (i : item) : Prop :=
+  forall p n, In n (postorder (nodes_item p i)) -> exists t, In t (tags_item p i) /\ node_of_tag n t.
+Definition nt_items_stmt (d : list item) : Prop :=
+  forall p n, In n (postorder (nodes_items p d)) -> exists t, In t (tags_items p d) /\ node_of_tag n t.
+
+Lemma node_tag_doc : (forall i, nt_item_stmt i) /\ (forall d, nt_items_stmt d).
+Proof.
+  assert (Hnone : forall i, (forall p, nodes_item p i = []) -> nt_item_stmt i).
+  { intros i Hn p n H. rewrite Hn in H. destruct H. }
+  assert (HT : forall s, nt_item_stmt (IText s)) by (intros; apply Hnone; reflexivity).
+  assert (HLt : forall s, nt_item_stmt (ILt s)) by (intros; apply Hnone; reflexivity).
+  assert (HCo : forall b, nt_item_stmt (IComment b)) by (intros; apply Hnone; reflexivity).
+  assert (HCd : forall b, nt_item_stmt (ICData b)) by (intros; apply Hnone; reflexivity).
+  assert (HPi : forall ps, nt_item_stmt (IPI ps)) by (intros; apply Hnone; reflexivity).
+  assert (HSe : forall n l w, nt_item_stmt (ISelf n l w)).
+  { intros n l w p x H. cbn [nodes_item postorder flat_map postorder_node app In] in H. destruct H as [<-|[]].
+    eexists. split; [left; reflexivity|]. split; reflexivity. }
+  assert (HVo : forall n l w, nt_item_stmt (IVoid n l w)).
+  { intros n l w p x H. cbn [nodes_item postorder flat_map postorder_node app In] in H. destruct H as [<-|[]].
+    eexists. split; [left; reflexivity|]. split; reflexivity. }
+  assert (HRa : forall n l w b, nt_item_stmt (IRaw n l w b)).
+  { intros n l w b p x H. cbn [nodes_item] in H. cbv zeta in H.
+    cbn [postorder flat_map postorder_node app In] in H. destruct H as [<-|[]].
+    eexists. split; [left; reflexivity|]. split; reflexivity. }
+  assert (HPa : forall n l w kids, nt_items_stmt kids -> nt_item_stmt (IPaired n l w kids)).
+  { intros n l w kids IH p x H. rewrite nodes_item_paired in H. cbv zeta in H.
+    cbn [postorder flat_map postorder_node] in H. rewrite app_nil_r in H. apply in_app_or in H.
+    rewrite tags_item_paired. destruct H as [H|[<-|[]]].
+    - destruct (IH _ _ H) as (t & Ht & Hnt). exists t. split; [right; exact Ht|exact Hnt].
+    - eexists. split; [left; reflexivity|]. split; reflexivity. }
+  assert (HQ0 : nt_items_stmt []) by (intros p n []).
+  assert (HQ1 : forall i d, nt_item_stmt i -> nt_items_stmt d -> nt_items_stmt (i :: d)).
+  { intros i d Hi Hd p n H. cbn [nodes_items tags_items] in *. unfold postorder in H. rewrite flat_map_app in H.
+    apply in_app_or in H. destruct H as [H|H].
+    - destruct (Hi _ _ H) as (t & Ht & Hnt). exists t. split; [apply in_or_app; left; exact Ht|exact Hnt].
+    - destruct (Hd _ _ H) as (t & Ht & Hnt). exists t. split; [apply in_or_app; right; exact Ht|exact Hnt]. }
+  split.
+  - exact (item_ind2 _ _ HT HLt HCo HCd HPi HPa HSe HVo HRa HQ0 HQ1).
+  - exact (items_ind2 _ _ HT HLt HCo HCd HPi HPa HSe HVo HRa HQ0 HQ1).
+Qed.
+
+(* every tag lies in the rendered text at its offset and is well formed *)
+Definition tag_in (p : N) (text : str) (t : tagrec) : Prop :=
+  tag_ok (tr_name t) (tr_attrs t) (tr_ws t) = true /\
+  exists pre post : str, text = pre ++ tr_text t ++ post /\ tr_start t = (p + N.of_nat (length pre))%N.
+
+Lemma tag_in_shift p q (a b text : str) t :
+  q = (p + N.of_nat (length a))%N -> tag_in q text t -> tag_in p (a ++ text ++ b) t.
+Proof.
+  intros -> (Hok & pre & post & -> & Hs). split; [exact Hok|].
+  exists (a ++ pre), (post ++ b). split.
+  - rewrite <- !app_assoc. reflexivity.
+  - rewrite Hs, app_length. lia.
+Qed.
+
+Section TagsIn.
+  Variable special : list (str * option (list str)).
+  Definition ti_item_stmt (i : item) : Prop :=
+    forall p t, item_ok special i = true -> In t (tags_item p i) -> tag_in p (render_item i) t.
+  Definition ti_items_stmt (d : list item) : Prop :=
+    forall p t, forallb (item_ok special) d = true -> In t (tags_items p d) -> tag_in p (render d) t.
+
+  Lemma tag_in_head p n l w sc (post : str) :
+    tag_ok n l w = true -> tag_in p (open_tag n l w sc ++ post) (mkTagRec p n l w sc).
+  Proof.
+    intros Hok. split; [exact Hok|]. exists [], post. split; [reflexivity|]. cbn [length tr_start]. lia.
+  Qed.
+
+  Lemma tags_in_doc : (forall i, ti_item_stmt i) /\ (forall d, ti_items_stmt d).
+  Proof.
+    assert (Hnone : forall i, (forall p, tags_item p i = []) -> ti_item_stmt i).
+    { intros i Hn p t _ H. rewrite Hn in H. destruct H. }
+    assert (HT : forall s, ti_item_stmt (IText s)) by (intros; apply Hnone; reflexivity).
+    assert (HLt : forall s, ti_item_stmt (ILt s)) by (intros; apply Hnone; reflexivity).
+    assert (HCo : forall b, ti_item_stmt (IComment b)) by (intros; apply Hnone; reflexivity).
+    assert (HCd : forall b, ti_item_stmt (ICData b)) by (intros; apply Hnone; reflexivity).
+    assert (HPi : forall ps, ti_item_stmt (IPI ps)) by (intros; apply Hnone; reflexivity).
+    assert (HSe : forall n l w, ti_item_stmt (ISelf n l w)).
+    { intros n l w p t Hok H. cbn [tags_item In item_ok render_item] in *. destruct H as [<-|[]].
+      rewrite <- (app_nil_r (open_tag n l w true)). apply tag_in_head. exact Hok. }
+    assert (HVo : forall n l w, ti_item_stmt (IVoid n l w)).
+    { intros n l w p t Hok H. cbn [tags_item In item_ok render_item] in *. destruct H as [<-|[]].
+      apply andb_true_iff in Hok. destruct Hok as [Hok _].
+      rewrite <- (app_nil_r (open_tag n l w false)). apply tag_in_head. exact Hok. }
+    assert (HRa : forall n l w b, ti_item_stmt (IRaw n l w b)).
+    { intros n l w b p t Hok H. cbn [tags_item In item_ok render_item] in *. destruct H as [<-|[]].
+      apply andb_true_iff in Hok. destruct Hok as [Hok _]. apply andb_true_iff in Hok. destruct Hok as [Hok _].
+      apply tag_in_head. exact Hok. }
+    assert (HPa : forall n l w kids, ti_items_stmt kids -> ti_item_stmt (IPaired n l w kids)).
+    { intros n l w kids IH p t Hok H. rewrite tags_item_paired in H. cbn [item_ok render_item] in *.
+      fold (render kids).
+      apply andb_true_iff in Hok. destruct Hok as [Hok Hk]. apply andb_true_iff in Hok. destruct Hok as [Hok _].
+      destruct H as [<-|H].
+      - apply tag_in_head. exact Hok.
+      - eapply tag_in_shift; [reflexivity|]. apply IH; assumption. }
+    assert (HQ0 : ti_items_stmt []) by (intros p t _ []).
+    assert (HQ1 : forall i d, ti_item_stmt i -> ti_items_stmt d -> ti_items_stmt (i :: d)).
+    { intros i d Hi Hd p t Hok H. cbn [forallb] in Hok. apply andb_true_iff in Hok. destruct Hok as [H1 H2].
+      cbn [tags_items] in H. unfold render. cbn [flat_map]. fold (render d). apply in_app_or in H. destruct H as [H|H].
+      - pose proof (Hi p t H1 H) as G. apply (tag_in_shift p p [] (render d)) in G; [exact G|cbn [length]; lia].
+      - pose proof (Hd _ t H2 H) as G. rewrite <- (app_nil_r (render d)).
+        eapply tag_in_shift; [reflexivity|exact G]. }
+    split.
+    - exact (item_ind2 _ _ HT HLt HCo HCd HPi HPa HSe HVo HRa HQ0 HQ1).
+    - exact (items_ind2 _ _ HT HLt HCo HCd HPi HPa HSe HVo HRa HQ0 HQ1).
+  Qed.
+End TagsIn.
+
+(* get_attributes over the text of the document, at the range of any of its tags: the attributes as written *)
+Theorem get_attributes_doc special d t :
+  forallb (item_ok special) d = true -> In t (tags_of d) ->
+  get_attributes (render d) (tr_start t) (tr_end t) (tr_name t) =
+  attr_tokens (tr_start t + N.of_nat (S (length (tr_name t))))%N (tr_attrs t).
+Proof.
+  intros Hok Ht. destruct (tags_in_doc special) as [_ G].
+  destruct (G d 0%N t Hok Ht) as (Htag & pre & post & E & Hs).
+  rewrite N.add_0_l in Hs. unfold tr_end. rewrite E, Hs. apply get_attributes_text. exact Htag.
+Qed.
+
+(* end to end: what match() returns on the text -- the innermost element of the record, and its attributes
+   are those of one of the document's tags, as written, at their exact ranges *)
+Theorem match_text_attrs o d pos m :
+  doc_ok o d = true -> html_match o (render d) pos = Ok (Some m) ->
+  exists b t, innermost (forest_of d) pos = Some b /\ In t (tags_of d) /\
+    m_name m = b_name b /\ m_open m = b_open b /\ m_close m = b_close b /\
+    b_name b = tr_name t /\ b_open b = (tr_start t, tr_end t) /\
+    m_attrs m = attr_tokens (tr_start t + N.of_nat (S (length (tr_name t))))%N (tr_attrs t).
+Proof.
+  intros Hd Hm. rewrite (match_text o d pos Hd) in Hm.
+  destruct (innermost (forest_of d) pos) as [b|] eqn:Ei; [|discriminate].
+  inversion Hm; subst m; clear Hm. cbn [m_name m_open m_close m_attrs].
+  assert (Hin : In b (enclosing (forest_of d) pos)).
+  { unfold innermost in Ei. destruct (enclosing (forest_of d) pos); [discriminate|]. inversion Ei; subst. left. reflexivity. }
+  unfold enclosing in Hin. apply in_map_iff in Hin. destruct Hin as (n & <- & Hn). apply filter_In in Hn. destruct Hn as [Hn _].
+  destruct node_tag_doc as [_ G]. destruct (G d 0%N n Hn) as (t & Ht & Ho & Hname).
+  exists (entry n), t. repeat split; try assumption; try reflexivity.
+  rewrite Ho, Hname. cbn [fst snd].
+  unfold doc_ok in Hd. apply andb_true_iff in Hd. destruct Hd as [Hd _].
+  apply (get_attributes_doc (o_special o)); assumption.
+Qed.
